@@ -397,6 +397,13 @@ def _guarantee_call(parent, context, resolve=True):
     return parent
 
 
+def _expect(obj, types, node, what):
+    """Raise a syntax error at node unless obj is an instance of types."""
+    if not isinstance(obj, types):
+        raise node.location.syntax_error(what)
+    return obj
+
+
 class Evaluator:
     """Evaluator that transforms the parse tree into a Selector."""
 
@@ -438,6 +445,8 @@ def make_group(node, _1, element, _2, context):
 def make_nested_imm(node, parent, child, context):
     parent = evaluate(parent, context=context)
     child = evaluate(child, context=context)
+    _expect(parent, (Element, Call), node, "Invalid parent for >")
+    _expect(child, (Element, Call), node, "Invalid child for >")
     parent = _guarantee_call(parent, context=context)
     if isinstance(child, Element):
         child = child.with_focus()
@@ -471,6 +480,7 @@ def make_class(node, element, tag, context):
     element = (
         evaluate(element, context=context) if element else Element(name=None)
     )
+    _expect(element, Element, node, "A category can only be given to a variable")
     tag = value_evaluate(tag)
     return element.clone(category=tag)
 
@@ -478,20 +488,21 @@ def make_class(node, element, tag, context):
 @evaluate.register_action("_ ! X")
 def make_focus(node, _, element, context):
     element = evaluate(element, context=context)
-    assert isinstance(element, Element)
+    _expect(element, Element, node, "Only a variable can be the focus")
     return element.with_focus()
 
 
 @evaluate.register_action("_ !! X")
 def make_double_focus(node, _, element, context):
     element = evaluate(element, context=context)
-    assert isinstance(element, Element)
+    _expect(element, Element, node, "Only a variable can be the focus")
     return element.clone(tags=frozenset({2}))
 
 
 @evaluate.register_action("_ $ X")
 def make_dollar(node, _, name, context):
     name = evaluate(name, context=context)
+    _expect(name, Element, node, "Invalid name for $")
     return Element(name=None, category=None, capture=name.name, tags=name.tags)
 
 
@@ -501,6 +512,7 @@ def make_call_capture(node, fn, names, _, context):
     fn = evaluate(fn, context=context)
     names = evaluate(names, context="incall") if names else []
     names = names if isinstance(names, list) else [names]
+    _expect(fn, (Element, Call), node, "Invalid function for a call")
     fn = _guarantee_call(fn, context=context)
     caps = tuple(name for name in names if isinstance(name, Element))
     children = tuple(name for name in names if isinstance(name, Call))
@@ -522,6 +534,8 @@ def make_sequence(node, a, b, context):
 def make_as(node, element, name, context):
     element = evaluate(element, context=context)
     name = evaluate(name, context=context)
+    _expect(element, (Element, Call), node, "Invalid operand for as")
+    _expect(name, Element, node, "Invalid name for as")
     if isinstance(element, Element):
         return element.clone(capture=name.name, tags=element.tags | name.tags)
     else:
@@ -537,6 +551,7 @@ def make_as(node, element, name, context):
 @evaluate.register_action("X = X")
 def make_equals(node, element, value, context, matchfn=False):
     element = evaluate(element, context=context)
+    _expect(element, (Element, Call), node, "Invalid operand for a value condition")
     value = value_evaluate(value)
     if matchfn:
         value = VCall(MatchFunction, (value,))
@@ -583,7 +598,7 @@ def dict_resolver(env):
 
             try:
                 co = codefind.find_code(*hierarchy, module=module or "__main__")
-            except KeyError:
+            except (KeyError, ImportError):
                 raise CodeNotFoundError(
                     f"Cannot find a function for the reference '{x}'."
                     " Try calling `ptera.refstring` on the function you want"
@@ -613,7 +628,10 @@ def dict_resolver(env):
                 raise SelectorError(f"Could not resolve '{start}'.")
 
             for part in parts:
-                curr = getattr(curr, part)
+                try:
+                    curr = getattr(curr, part)
+                except AttributeError:
+                    raise SelectorError(f"Could not resolve '{x}'.")
 
         return getattr(curr, "__ptera__", curr)
 
@@ -659,6 +677,8 @@ class VCall(VNode):
 
     def eval(self, env):
         fn = _eval(self.fn, env)
+        if not callable(fn):
+            raise SelectorError(f"'{self.fn}' is not callable.")
         args = []
         kwargs = {}
         for arg in self.args:
@@ -727,7 +747,7 @@ def vmake_call(node, fn, args, _, context):
 @value_evaluate.register_action("X = X")
 def vmake_keyword(node, key, value, context):
     key = value_evaluate(key)
-    assert isinstance(key, VSymbol)
+    _expect(key, VSymbol, node, "Invalid keyword")
     value = value_evaluate(value)
     return VKeyword(key, value)
 
@@ -738,7 +758,12 @@ def vmake_symbol(node, context):
 
 
 def parse(x):
-    return evaluate(parser(x))
+    tree = parser(x)
+    if tree is None:
+        raise opparse.Location(x, "<string>", 0, 0).syntax_error(
+            "Empty selector"
+        )
+    return evaluate(tree)
 
 
 def _find_eval_env(s, fr, skip):
@@ -816,7 +841,8 @@ def _select(selector, context="root"):
             captures=(selector.with_focus(),),
             immediate=False,
         )
-    assert isinstance(selector, Call)
+    if not isinstance(selector, Call):
+        raise SelectorError(f"Invalid selector: {selector}")
     return selector
 
 
